@@ -567,6 +567,16 @@ func (m *Machine) applyContract(st *State, fr *Frame, instr ssa.Instruction, fc 
 	st.opaque = m.ctx.nfresh
 	defer func() { st.opaque = 0 }()
 	for _, e := range fc.Ensures {
+		// clauses that mention locals of the callee are internal to its proof: not part of what a caller may assume
+		internal := false
+		for _, n := range paramNames(e) {
+			if _, have := bind[n]; !have {
+				internal = true
+			}
+		}
+		if internal {
+			continue
+		}
 		v, ok := m.evalClause(st, e, bind)
 		if !ok {
 			continue
